@@ -141,6 +141,61 @@ class Program:
         for c in WORKSPACE:
             if c not in self.crates or not self.crates[c].get('full'):
                 raise AnchorMissing('facts for workspace crate %s missing' % c)
+        self.renamed = {}
+        self._canonicalise_roles()
+
+    # ---- refactor tolerance: private functions the rules name are found by ROLE when their name changed
+    ROLES = [
+        # (crate, impl ADT suffix or None, canonical name, predicate on Fn)
+        ('maybenot', 'Framework', 'transition', lambda f: _calls(f, '::sample_state')),
+        ('maybenot', 'Framework', 'update_counter', lambda f: _calls(f, '::sample_value')),
+        ('maybenot', 'Framework', 'schedule_action', lambda f: _calls(f, '::sample_timeout')),
+        ('maybenot', 'Framework', 'decrement_limit', lambda f: _calls(f, '::has_limit')),
+        ('maybenot', 'Framework', 'process_event', lambda f: len(f.inputs) == 2 and 'TriggerEvent' in f.inputs[1]),
+        ('maybenot', 'Framework', 'below_limit_blocking', lambda f: _calls(f, 'div_duration_f64') and f.output == 'bool'),
+        ('maybenot', 'Framework', 'below_limit_padding', lambda f: f.output == 'bool' and len(f.inputs) == 3 and '"n":"allowed_padding_packets"' in _text(f)),
+        ('maybenot', 'Framework', 'below_action_limits', lambda f: f.output == 'bool' and len(f.inputs) == 3 and '"n":"allowed_padding_packets"' not in _text(f) and not _calls(f, 'div_duration_f64')),
+        ('maybenot_simulator', None, 'sim_network_stack', lambda f: '"variant":"TunnelRecv"' in _text(f) and f.output == 'bool'),
+        ('maybenot_simulator', None, 'do_scheduled_action', lambda f: '"variant":"PaddingSent"' in _text(f) and 'Option' in f.output),
+        ('maybenot_simulator', None, 'do_internal_timer', lambda f: '"variant":"TimerEnd"' in _text(f) and 'Option' in f.output),
+        ('maybenot_simulator', None, 'trigger_update', lambda f: _calls(f, '::trigger_events') and '"variant":"TimerBegin"' in _text(f)),
+        ('maybenot_simulator', None, 'pick_next', lambda f: '"variant":"BlockingEnd"' in _text(f) and 'Option' in f.output),
+    ]
+
+    def _canonicalise_roles(self):
+        for (crate, adt, canon, pred) in self.ROLES:
+            if self.fn_opt(crate, adt, canon) is not None:
+                continue
+            cands = []
+            for f in self.fns.values():
+                if f.crate != crate or f.dk == 'Closure' or not f.has_body or f.impl_trait or f.vis == 'Public':
+                    continue
+                a = (f.impl_adt or '').split('::')[-1] or None
+                if a != adt:
+                    continue
+                try:
+                    if pred(f):
+                        cands.append(f)
+                except Exception:
+                    pass
+            if len(cands) != 1:
+                continue  # the rules will fail closed on the missing anchor
+            f = cands[0]
+            old = f.name
+            self.renamed[f.key] = (old, canon)
+            f.name = canon
+            if f.path.endswith('::' + old):
+                f.path = f.path[:-len(old)] + canon
+            for g in self.fns.values():
+                if not g.has_body:
+                    continue
+                for bb in g.blocks:
+                    t = bb['t']
+                    if t['k'] == 'call' and t['f'].get('key') == f.key:
+                        for k2 in ('str', 'declstr'):
+                            v = t['f'].get(k2)
+                            if v and v.endswith('::' + old):
+                                t['f'][k2] = v[:-len(old)] + canon
 
     # ---- lookup helpers (fail closed)
     def fn(self, crate, adt, name, trait=None):
@@ -193,6 +248,19 @@ class Program:
 
     def crate_fns(self, crate):
         return [f for f in self.fns.values() if f.crate == crate]
+
+
+def _calls(f, suffix):
+    for c in f.edges.get('calls', []):
+        if (c.get('key') or '').endswith(suffix) or (c.get('decl') or '').endswith(suffix) or (c.get('str') or '').endswith(suffix):
+            return True
+    return False
+
+
+def _text(f):
+    if '_txt' not in f._cache:
+        f._cache['_txt'] = json.dumps(f.j.get('body', {}), separators=(',', ':'))
+    return f._cache['_txt']
 
 
 # --------------------------------------------------------------------- callee helpers
